@@ -383,9 +383,15 @@ def replay_tableform(n, history=False):
   for x, y in zip(xs, ys):
     if abs(pa(x) - y) > 1e-9 or abs(pb(x) - y) > 1e-9:
       bad.append("at data point (%r, %r): x/y form gives %r, xy form %r" % (x, y, pa(x), pb(x)))
-  for x in (xs[0] - 0.1, xs[-1] + 0.1, xs[-1] + 10):
+  import math
+  outside = [xs[0] - 0.1, xs[-1] + 0.1, xs[-1] + 10,
+             # just outside: one ulp, and a relative 1e-7 / 1e-10, beyond either end
+             math.nextafter(xs[-1], math.inf), xs[-1] * (1 + 1e-7), xs[-1] * (1 + 1e-10), math.nextafter(xs[0], -math.inf), xs[0] * (1 - 1e-7), xs[0] - 1e-9]
+  for x in outside:
     if pa(x) != 0.0 or pb(x) != 0.0:
       bad.append("outside the data range at %r: %r / %r" % (x, pa(x), pb(x)))
+    if pa.deriv(x) != 0.0 or pa.deriv2(x) != 0.0:
+      bad.append("outside the data range at %r the derivatives are %r / %r" % (x, pa.deriv(x), pa.deriv2(x)))
   for x in (0.5 * (xs[0] + xs[1]), 0.37 * xs[1] + 0.63 * xs[2]):
     if abs(pa(x) - pb(x)) > 1e-12:
       bad.append("x/y and xy forms differ at %r: %r vs %r" % (x, pa(x), pb(x)))
